@@ -20,7 +20,10 @@ RULE = (
     "replaced (type change), removed or re-aligned (shifted lists), inner snapshots inside dicts and "
     "constructor calls, comparisons that raise (`<=` across types, an __eq__ that raises), unused sites, empty "
     "sub-snapshots, sub-snapshot keys that are only accessed, one snapshot used with two operations, a site "
-    "evaluated in a loop with changing nested structure; all 16 approved sets. Oracle in process: collecting the "
+    "evaluated in a loop with changing nested structure, unusual but valid spellings of the call and of the "
+    "hand-written value (parenthesised callee, comments inside the call, trailing commas, `dict(a=1)`, "
+    "implicit string concatenation, operators), containers with star-expressions compared once, in a loop or "
+    "never; all 16 approved sets. Oracle in process: collecting the "
     "changes, apply_all and fix_all raise nothing, the replacements recorded for a file are pairwise "
     "non-overlapping (checked on the recorder, independently of the internal assert) and the result parses. "
     "Oracle in a real session: no INTERNALERROR, exit status in {0, 1}, the inline-snapshot report terminates, "
@@ -32,7 +35,8 @@ ASSUMPTIONS = [
 ]
 
 FRAGS = ["site", "site", "raise", "nested_replace", "nested_shift", "nested_dict", "nested_call", "cmp_raises",
-         "eq_raises", "unused", "empty_sub", "access_only", "two_ops", "loop_struct", "nested_equal"]
+         "eq_raises", "unused", "empty_sub", "access_only", "two_ops", "loop_struct", "nested_equal", "spelling",
+         "star"]
 
 
 @st.composite
@@ -47,6 +51,28 @@ def _frag(draw, tier, idx):
                                            "snapshot({'a': 1})"]))
         f["obs"] = draw(st.sampled_from(["5", "[1]", "[1, 2]", "[2, 1, 3]", "[[1, 2], 1]", "{'a': 1}", "{'b': 2}",
                                          "'x'", "[]", "[1, 1]", "[0, 1, 2, 1]", "Point(x=1, y=2)", "(1,)"]))
+    elif kind == "spelling":
+        # valid but unusual spellings of the call and of constructor calls inside the value
+        f["expr"] = draw(st.sampled_from([
+            "2 == (snapshot)()", "2 == (\n    snapshot\n)()", "3 == ((snapshot))(4)", "2 == snapshot ()",
+            "2 == snapshot(  # comment\n)", "2 == snapshot(3,)", "[1, 2] == snapshot(\n    # leading\n    [1]  # trailing\n    # after\n)",
+            "Point(x=1, y=5) == snapshot((Point)(x=2))", "Point(x=1) == snapshot(( Point )(x=1, y=7))",
+            "Point(x=1, y=2) == snapshot(Point(x=1,))", "Point(x=1, y=2) == snapshot(Point(\n    x=1  # c\n))",
+            "{'a': 1, 'b': 2} == snapshot({'a': 1,})", "[1, 2] == snapshot([1,])", "(1, 2) == snapshot((1,))",
+            "(1, 2) == snapshot(1,)", "[1] == snapshot(list())", "{'a': 1} == snapshot(dict(a=2))", "{'a': 1} == snapshot(dict())",
+            "[] == snapshot([1, 2][:0])", "5 == snapshot(2 if True else 3)", "[1, 2] == snapshot([x for x in [1]])",
+            "'ab' == snapshot('a' 'c')", "'ab' == snapshot(('a'\n    'c'))", "-1 == snapshot(- 2)", "1 == snapshot(+1)",
+            "1 == snapshot(not 0)", "[1, 2] == snapshot([1] + [3])", "{1, 2} == snapshot({1} | {3})",
+        ]))
+    elif kind == "star":
+        f["expr"] = draw(st.sampled_from([
+            "[1, 2, 5] == snapshot([*BASE, 5])", "[1, 2, 6] == snapshot([*BASE, 5])", "(1, 2, 5) == snapshot((*BASE, 0x5))",
+            "{'a': 1, 'b': 2, 'k': 5} == snapshot({**DBASE, 'k': 0x5})", "{'a': 1, 'b': 2, 'k': 6} == snapshot({**DBASE, 'k': 5})",
+            "Point(x=1, y=5) == snapshot(Point(**{'x': 1}, y=0x5))", "Point(x=1, y=6) == snapshot(Point(*[1], y=5))",
+            "[[1, 2, 5], 1] == snapshot([[*BASE, 5], 2])", "{'k': [1, 2]} == snapshot({'k': [*BASE], 'j': 1})",
+        ]))
+        f["loop"] = draw(st.sampled_from([0, 0, 2]))
+        f["unused"] = draw(st.sampled_from([False, False, True]))
     elif kind == "cmp_raises":
         f["expr"] = draw(st.sampled_from(['"a" <= snapshot(5)', 'None >= snapshot(5)', '"a" <= snapshot()',
                                           '[1] <= snapshot("a")', '5 in snapshot([1])', '{} in snapshot([1])',
@@ -98,6 +124,14 @@ def render_frag(f):
         return [f"assert [1, [1, 2]] == snapshot([{f['inner']}, snapshot([1, 2])])"], []
     if k == "cmp_raises":
         return [f"assert {f['expr']}"], []
+    if k == "spelling":
+        return (f"assert {f['expr']}").split("\n"), []
+    if k == "star":
+        if f.get("unused"):
+            return [f"z{n} = " + f["expr"].split(" == ", 1)[1]], []
+        if f.get("loop"):
+            return [f"for _ in range({f['loop']}):", f"    assert {f['expr']}"], []
+        return [f"assert {f['expr']}"], []
     if k == "eq_raises":
         return ["assert Raiser() == snapshot(1)" if n % 2 else "assert snapshot(1) == Raiser()"], []
     if k == "unused":
@@ -117,7 +151,8 @@ def render_frag(f):
 
 
 def render(case):
-    header = ["from inline_snapshot import snapshot, Is", "from vf_prelude import *", "", "LOG = []", "",
+    header = ["from inline_snapshot import snapshot, Is", "from vf_prelude import *", "", "LOG = []",
+              "BASE = [1, 2]", "DBASE = {'a': 1, 'b': 2}", "",
               "class Raiser:", "    def __eq__(self, other):", "        raise RuntimeError('eq')", ""]
     helpers = []
     tests = {}
